@@ -22,7 +22,7 @@ LEVEL = "fault_enumeration"
 RULE = (
     "Invocation = request set (1..4 of: current / deprecated SPDX identifiers, 'ID+', unknown names, LicenseRef- with / without --source file | directory | "
     "directory lacking the file) | --all over a project with 0..4 missing licences (some of them unknown identifiers) | -o PATH, x per-identifier network plan {200 + body, 404, 500, "
-    "connection reset, body shorter than Content-Length} x LICENSES/ pre-state {absent, empty, target already present with sentinel bytes, target present as a dangling symbolic link pointing out of the project} x cwd {root, "
+    "connection reset, body shorter than Content-Length, 206 with part of the text, 204 without a body} x LICENSES/ pre-state {absent, empty, target already present with sentinel bytes or with zero bytes (also the -o path), target present as a dangling symbolic link pointing out of the project} x cwd {root, "
     "sub-directory of a Git repository, inside LICENSES/ with and without Git, outside with --root, outside with --root <project>/LICENSES}; arguments with a path separator in front of a real identifier; sequences of 1..3 invocations.  Oracle: every "
     "pre-existing file byte-identical; new files only LICENSES/<id without '+'>.txt under the root (or the -o path) with exactly the served body / the "
     "--source bytes / empty for a bare LicenseRef-; a failed identifier leaves no file and makes the exit status non-zero; all succeeded => exit 0; no "
@@ -63,12 +63,14 @@ def invocation(draw):
                 ids.append("LicenseRef-" + draw(st.sampled_from(["custom", "a.b", "X-1"])))
     plan = {}
     for i in VALID + UNKNOWN:
-        plan[i] = draw(st.sampled_from(["ok", "ok", "ok", "ok", "404", "500", "reset", "short"]))
+        plan[i] = draw(st.sampled_from(["ok", "ok", "ok", "ok", "ok", "404", "500", "reset", "short", "206", "204"]))
     for u in UNKNOWN:
-        if plan[u] == "ok" or plan[u] == "short":
+        if plan[u] in ("ok", "short", "206", "204"):
             plan[u] = "404"
     return {"mode": mode, "ids": ids, "plan": plan, "source": draw(st.sampled_from([None, None, "file", "dir", "dir-missing"])),
-            "cwd": draw(st.sampled_from(["root", "root", "sub", "licenses", "outside", "outside-licroot"]))}
+            "cwd": draw(st.sampled_from(["root", "root", "sub", "licenses", "outside", "outside-licroot"])),
+            # the -o target already exists (with text / with zero bytes)
+            "out_pre": draw(st.sampled_from([None, None, None, "text", "empty"]))}
 
 
 @st.composite
@@ -77,6 +79,8 @@ def case(draw):
             "preexisting": draw(st.lists(st.sampled_from(VALID + ["LicenseRef-custom"]), max_size=3, unique=True)),
             "used": draw(st.lists(st.sampled_from(VALID + ["LicenseRef-custom", "MIT+", "NotALicense", "GPL-9.9"]), max_size=4, unique=True)),
             "steps": draw(st.lists(invocation(), min_size=1, max_size=3)),
+            # which of the pre-existing targets are zero bytes long (a placeholder of an earlier `download LicenseRef-x`, an interrupted editor ...)
+            "empty_pre": draw(st.lists(st.sampled_from(VALID + ["LicenseRef-custom"]), max_size=3, unique=True)),
             # LICENSES/<id>.txt present as a dangling symbolic link that points out of the project
             "dangling": draw(st.lists(st.sampled_from(VALID + ["LicenseRef-custom"]), max_size=2, unique=True)) if draw(st.integers(0, 3)) == 0 else []}
 
@@ -98,7 +102,7 @@ def check(ctx, c):
             files["LICENSES/.keep.license"] = "x\n"  # keeps the directory, not a licence text
         if c["licenses_state"] == "some":
             for i in c["preexisting"]:
-                files[f"LICENSES/{i}.txt"] = f"SENTINEL {i}\n"
+                files[f"LICENSES/{i}.txt"] = b"" if i in c.get("empty_pre", []) else f"SENTINEL {i}\n"
         files["custom/LicenseRef-custom.txt"] = "custom licence text\n"
         files["custom/LicenseRef-a.b.txt"] = "text of a.b\n"
         files["custom/LicenseRef-a.txt"] = "text of a (another licence)\n"
@@ -143,6 +147,9 @@ def check(ctx, c):
             if step["mode"] == "output":
                 out_path = base / "out dir" / "licence.txt"
                 out_path.parent.mkdir(exist_ok=True)
+                if step.get("out_pre") and not out_path.exists():
+                    out_path.write_bytes(b"" if step["out_pre"] == "empty" else b"SENTINEL -o target\n")
+                    before = AN.snapshot(base)
                 args += ["-o", str(out_path)]
             src = None
             if step["source"] == "file":
@@ -156,7 +163,8 @@ def check(ctx, c):
             args += ids
             plan = {}
             for ident, how in step["plan"].items():
-                plan[ident] = {"ok": ("ok", body_of(ident)), "404": ("status", 404), "500": ("status", 500), "reset": ("reset",), "short": ("short", b"partial")}[how]
+                plan[ident] = {"ok": ("ok", body_of(ident)), "404": ("status", 404), "500": ("status", 500), "reset": ("reset",), "short": ("short", b"partial"),
+                               "206": ("status-body", 206, body_of(ident)[:9]), "204": ("status-body", 204, b"")}[how]
             with STUB.active(plan):
                 res = cli.run(args, cwd)
                 log = list(STUB.log)
